@@ -287,8 +287,9 @@ theorem throttle_then_reject_sample :
 
 /-! ## every op history of the executed definitions (throttling rules, sleeps, reloads)
 
-`runOps m ops` is what the driver executes for `clock` / `load` / `entry` lines (`stepOp`): the ns clock that never
+`runOps m ops` is what the driver executes for `clock` / `load` / `loadres` / `entry` lines (`stepOp`): the ns clock that never
 goes backwards, `reloadG` (first load and every reload, with the reuse order of `buildResourceTrafficShapingController`),
+`loadresG` (`flow.LoadRulesOfResource`: one resource rebuilt or cleared, rules of other resources and invalid rules ignored),
 `entryG` (chain walk with throttling controllers and sleeps, then the statistic slots at the advanced time).
 `refRunOps` is the array-free reference: rules in force with their `since` offsets and `lastPassedTime`s, and the
 admitted history. -/
